@@ -215,7 +215,9 @@ Definition argv_tokens (e : dbentry) : list string :=
   (flat_map render_arg (db_args e) ++ [rpath (db_file e)])%list.
 Definition entry_of (e : dbentry) : entry :=
   {| e_file := db_file e;
-     e_dirs := flat_map (fun a => match a with CInc _ d => [d] | _ => [] end) (db_args e);
+     (* include_paths + system_include_paths: every -I value in command-line order, then every -isystem value *)
+     e_dirs := (flat_map (fun a => match a with CInc false d => [d] | _ => [] end) (db_args e)
+                ++ flat_map (fun a => match a with CInc true d => [d] | _ => [] end) (db_args e))%list;
      e_defs := flat_map (fun a => match a with CDef m v => [(m, v)] | _ => [] end) (db_args e);
      e_incs := flat_map (fun a => match a with CForce n => [n] | _ => [] end) (db_args e) |}.
 
